@@ -280,13 +280,15 @@ def rule_nan_policy(ctx):
     okm = True
     nmask = 0
     bool_paths = []
+    masked_paths = []
     for p in ret_paths(ev):
         has_nan = [pol for a, pol in p.guards if a[0] == 'call' and T.call_name(a) == 'anynan']
         masked = [pol for a, pol in p.guards if a[0] == 'call' and T.call_name(a) == 'isMaskedArray']
         v = p.value
         if has_nan == [True]:
             # values masked where NaN, np.ma function
-            inner = v[1][1] if (v[0] == 'call' and T.call_name(v) == 'filled') else v
+            cands = [x for x in T.subterms(v) if x[0] == 'call' and x[1][0] == 'call' and T.dotted(x[1][1]) == 'getattr' and x[1][2] and T.dotted(x[1][2][0]) in ('np.ma', 'np')]
+            inner = cands[0] if cands else v
             if not (inner[0] == 'call' and inner[1][0] == 'call' and T.dotted(inner[1][1]) == 'getattr' and T.dotted(inner[1][2][0]) == 'np.ma'):
                 ctx.violated('R4', fi, 'NaN present', 'with NaNs present the numpy.ma variant of the function must be used', node=p.node)
                 okm = False
@@ -299,27 +301,49 @@ def rule_nan_policy(ctx):
                 continue
         if masked == [True]:
             nmask += 1
-            isbool = [pol for a, pol in p.guards if a[0] == 'cmp' and a[1] == '==' and a[3] == const('b') and 'dtype' in T.show(a[2])]
-            if isbool == [True]:
-                bool_paths.append(p)
-                # all / any over nothing: the identity of the reduction (all -> True, any -> False); bool(NaN) is True
-                fv = v[2][0] if (v[0] == 'call' and T.call_name(v) == 'filled' and v[2]) else None
-                good_fill = fv is not None and (fv == T.mkcmp('==', ('attr', SELF, '__name__'), const('all')) or
-                                                (fv[0] == 'ifexp' and 'all' in T.show(fv)) or fv in (T.CONST_TRUE, T.CONST_FALSE))
-                if not good_fill or fv in (T.CONST_TRUE, T.CONST_FALSE):
-                    ctx.violated('R4', fi, 'boolean masked result', 'a masked boolean result (all / any of an all-NaN slice) must be filled with the identity of the reduction - '
-                                 'True for all, False for any; got %s' % (T.show(fv) if fv else T.show(v)[:60]), node=p.node)
-                    okm = False
+            masked_paths.append(p)
+    # masked results: a scenario table over (function name, dtype kind of the masked result). np.ma returns a boolean masked array for all / any along an
+    # axis, but the *float64* constant np.ma.masked when everything is masked and the result is a scalar - the identity fill must not depend on the dtype
+    from ..rules import val_eval, UNKNOWN
+    NAME_T, KIND_TS = ('attr', SELF, '__name__'), set()
+    for p in masked_paths:
+        for a, pol in p.guards:
+            for x in T.subterms(a):
+                if x[0] == 'attr' and x[2] == 'kind' and x[1][0] == 'attr' and x[1][2] == 'dtype':
+                    KIND_TS.add(x)
+    table_bad = None
+    ntab = 0
+    for fname, kind, want in (('all', 'b', True), ('any', 'b', False), ('all', 'f', True), ('any', 'f', False), ('ptp', 'f', 'nan'), ('ptp', 'i', 'nan')):
+        env = {NAME_T: fname}
+        for kt in KIND_TS:
+            env[kt] = kind
+        live = []
+        for p in masked_paths:
+            dec = [(val_eval(a, env), pol) for a, pol in p.guards if T.contains(a, NAME_T) or any(T.contains(a, kt) for kt in KIND_TS)]
+            # (guards that mention the name only inside a larger, unevaluable term - the ndim test of the filled result - do not constrain the scenario)
+            if all(bool(r) == pol for r, pol in dec if r is not UNKNOWN):
+                live.append(p)
+        for p in live:
+            fills = [x for x in T.subterms(p.value) if x[0] == 'call' and T.call_name(x) == 'filled' and x[2]]
+            if not fills:
+                table_bad = table_bad or (p, fname, kind, 'the masked result is returned without .filled(...)')
                 continue
-            if not (v[0] == 'call' and T.call_name(v) == 'filled' and v[2] and T.dotted(v[2][0]) == 'np.nan'):
-                ctx.violated('R4', fi, 'return ' + T.show(v)[:140], 'a masked result must be converted with .filled(np.nan): slices that are entirely NaN '
-                             'must give NaN, not the data under the mask', node=p.node)
-                okm = False
-    if okm and nmask and not bool_paths:
-        ctx.violated('R4', fi, 'boolean results filled with NaN', 'every masked result is converted with .filled(np.nan), also the boolean ones of all / any: NaN cast to bool is True, so '
-                     'any(axis=d, skipna=True) reports True for a slice that is entirely NaN (it has no true element)', node=fi.node)
+            fv = fills[0][2][0]
+            got = 'nan' if T.dotted(fv) in ('np.nan', 'nan') else val_eval(fv, env)
+            ntab += 1
+            if got is UNKNOWN or got != want or (isinstance(want, bool) and not isinstance(got, bool)):
+                table_bad = table_bad or (p, fname, kind, 'it is filled with %s instead of %s' % ('an undecided value' if got is UNKNOWN else got, want))
+        if not live and masked_paths:
+            table_bad = table_bad or (masked_paths[0], fname, kind, 'no returning path')
+    if table_bad is not None:
+        p, fname, kind, what = table_bad
+        ctx.violated('R4', fi, 'masked result of %s (dtype kind %r)' % (fname, kind), 'a masked result stands for a slice that is entirely NaN: with skipna=True it must become the identity of '
+                     'the reduction for all / any (True / False: bool(NaN) is True, so any() would report True for a slice without a true element) and NaN otherwise, whatever '
+                     'the dtype of the masked result (np.ma returns the float64 constant np.ma.masked when a scalar result is fully masked); for %s with a result of kind %r %s'
+                     % (fname, kind, what), node=p.node)
+        okm = False
     elif okm and nmask:
-        ctx.holds('R4', '_MaskedArrayFunc: mask NaNs, np.ma function, masked results filled with NaN (boolean ones with the identity of the reduction)')
+        ctx.holds('R4', '_MaskedArrayFunc: mask NaNs, np.ma function, masked results filled with NaN, all / any with the identity of the reduction (%d table entries)' % ntab)
     # _median_with_nan
     fi = ctx.fn(TR + '_median_with_nan')
     rule_median_with_nan(ctx, fi)
@@ -397,15 +421,24 @@ def rule_percentile(ctx):
     ctx.rule('R7', 'percentile', 2)
     fi = ctx.fn('dimarray.lib.stats.percentile')
     A, PCT, AXIS = P_('a'), P_('pct'), P_('axis')
-    gai = ('call', ('attr', A, '_get_axis_info'), (AXIS,), ())
-    pos, nm = ('item', gai, 0), ('item', gai, 1)
+    # "a tuple of dimensions reduces over all of them at once" - for percentile too: the axis goes through the shared _deal_with_axis (which groups a tuple
+    # with flatten and is decided by R6), and values / position / name / surviving axes all come from its result
+    dwa = ('call', ('name', '_deal_with_axis'), (A, AXIS), ())
+    OBJ, pos, nm = ('item', dwa, 0), ('item', dwa, 1), ('item', dwa, 2)
+    A0 = A
     ev = run(ctx, fi, oracle=lambda a, st: (True if (a[0] == 'call' and T.dotted(a[1]) == 'isinstance' and a[2][0] == A) else None))
     n = 0
     for p in ret_paths(ev):
         v = p.value
         pc = [e.a for e in p.calls('percentile')]
+        if len(pc) == 1 and T.contains(pc[0], ('call', ('attr', A0, '_get_axis_info'), (AXIS,), ())) and not list(p.calls('_deal_with_axis')):
+            ctx.violated('R7', fi, 'axis resolved by _get_axis_info only', 'percentile resolves `axis` with a._get_axis_info(axis) alone: a tuple of dimensions raises TypeError '
+                         '(percentile(d, 50, axis=(\'x\', \'y\'))) although every reduction promises "a tuple of dimensions reduces over all of them at once" and the others group '
+                         'the dimensions through _deal_with_axis', node=p.node)
+            break
+        A = OBJ
         if len(pc) != 1 or pc[0][2][:2] != (('attr', A, 'values'), PCT) or T.kw(pc[0], 'axis') != pos:
-            ctx.violated('R7', fi, 'np.percentile call', 'np.percentile(a.values, pct, axis=pos) with pos resolved from `axis`', node=p.node)
+            ctx.violated('R7', fi, 'np.percentile call', 'np.percentile(obj.values, pct, axis=pos) with obj, pos, name = _deal_with_axis(a, axis)', node=p.node)
             continue
         if v == pc[0]:
             continue     # scalar result
@@ -424,7 +457,7 @@ def rule_percentile(ctx):
         if not okax:
             continue
         # attrs
-        upd = [e.a for e in p.calls('update') if e.a[2] == (('attr', A, 'attrs'),)]
+        upd = [e.a for e in p.calls('update') if e.a[2] in ((('attr', A, 'attrs'),), (('attr', A0, 'attrs'),))]
         if not upd:
             ctx.violated('R5', fi, 'return ' + T.show(v)[:120], 'percentile must carry the metadata of the array (results.attrs.update(a.attrs)), like the other '
                          'along-axis reductions', node=p.node)
